@@ -174,8 +174,10 @@ def check_side(ctx, c, case, rep_list, tally, side, viol):
                          rate=rate)
         if ar["total_matches"] != n_end_matches:
             viol("total-matches", f"{ar['name']}: total_matches={ar['total_matches']} but the ends sum to {n_end_matches}")
-        if (ar["on_reverse_complement"] or 0) != t["onrc"]:
-            viol("on-reverse-complement", f"{ar['name']}: on_reverse_complement={ar['on_reverse_complement']}, tally {t['onrc']}")
+        # with --revcomp the figure is reported for every adapter (0 included); without, there is nothing to report
+        want_rc = t["onrc"] if c["revcomp"] else None
+        if ar["on_reverse_complement"] != want_rc:
+            viol("on-reverse-complement", f"{ar['name']}: on_reverse_complement={ar['on_reverse_complement']}, tally {want_rc} (--revcomp {'on' if c['revcomp'] else 'off'})")
         nontrivial = t["total"] > 0
         ctx.case((" ".join(case["argv"][:-3]), ar["name"], str(sorted(t["five"].items())), str(sorted(t["three"].items()))) if nontrivial else None)
         if nontrivial:
